@@ -180,20 +180,24 @@ macro_rules! check_typed {
         }
         // ---- remainder, all operand forms
         let vb = view(&wrap(b.clone()));
-        let q = (x / y).trunc();
-        let forms: [(&str, View, View, f64); 3] = [
-            ("number % number", view(&wrap(&a % &b)), lincomb(1.0, &va, -q, &vb), x % y),
-            ("number % float", view(&wrap(&a % f)), lincomb(1.0, &va, -(x / f).trunc(), &(f, BTreeMap::new(), BTreeMap::new())), x % f),
-            ("float % number", view(&wrap(f % &b)), lincomb(1.0, &(f, BTreeMap::new(), BTreeMap::new()), -(f / y).trunc(), &vb), f % y),
+        // "the truncated quotient" is accepted in either of its two readings - of the float quotient
+        // or of the exact quotient (what the float remainder uses) - which differ by one when the
+        // float division rounds across a whole number (-1.0 / 0.2); see the decimal pairs below
+        let fv: View = (f, BTreeMap::new(), BTreeMap::new());
+        let forms: [(&str, View, &View, &View, f64, f64); 3] = [
+            ("number % number", view(&wrap(&a % &b)), &va, &vb, x, y),
+            ("number % float", view(&wrap(&a % f)), &va, &fv, x, f),
+            ("float % number", view(&wrap(f % &b)), &fv, &vb, f, y),
         ];
-        for (name, got, exp, frem) in forms {
+        for (name, got, va2, vb2, num, den) in forms {
             let scale = x.abs() + y.abs() + f.abs();
-            if !views_close(&got, &exp, 1e-12) && !((got.0 - exp.0).abs() <= 1e-12 * scale && views_close(&(0.0, got.1.clone(), got.2.clone()), &(0.0, exp.1.clone(), exp.2.clone()), 1e-12)) {
-                $v.fail(format!("remainder | {} is not a - b*trunc(a/b) in value and derivatives", name), format!("a = {:?}, b = {:?}, float {:e}: got {:?}, expected {:?}", va, vb, f, got, exp));
-                return;
-            }
-            if !((got.0 - frem).abs() <= 1e-12 * scale) {
-                $v.fail(format!("remainder | {} value differs from the float remainder", name), format!("{:e} vs {:e}", got.0, frem));
+            let candidates = [(num / den).trunc(), ((num - num % den) / den).round()];
+            let ok = candidates.iter().any(|d| {
+                let exp = lincomb(1.0, va2, -d, vb2);
+                views_close(&got, &exp, 1e-12) || ((got.0 - exp.0).abs() <= 1e-12 * scale && views_close(&(0.0, got.1.clone(), got.2.clone()), &(0.0, exp.1.clone(), exp.2.clone()), 1e-12))
+            });
+            if !ok {
+                $v.fail(format!("remainder | {} is not a - b*trunc(a/b) in value and derivatives", name), format!("a = {:?}, b = {:?}, float {:e} (accepted quotients {:?}): got {:?}", va, vb, f, candidates, got));
                 return;
             }
         }
@@ -372,7 +376,7 @@ impl Property for C19 {
     }
 
     fn rule(&self) -> String {
-        "random (kind, two numbers with arbitrary derivative content and values of either sign incl. equal values, an alternative derivative content for the first, a float of either sign, a sequence of 0-5 numbers). Oracle: <,<=,>,>=,partial_cmp between numbers and with a float on either side == the float comparison of the values and unchanged when derivatives are replaced, also through the generic number container in all six operand positions (container/container, container/float container, container/float and the mirror images); a == b => Equal; 0-2 pairs from a table of special floats (signed zeros, NaN, infinities, neighbouring doubles, subnormals, MAX) compared in six operand forms against the float comparison; abs flips value and every derivative iff the value is negative; a % b, a % float, float % b == a - b*trunc(a/b) by name in value and derivatives (1e-12) and in value == the float remainder; owned forms == reference forms; 0-2 remainder pairs built from decimals (dividend = m x divisor as written, nudged by 0-2 ulps: quotients a hair below or above a whole number); a sum of related terms (copies, scaled copies, products of earlier terms) == adding them one by one; sum == left fold from zero by name and identical through five kinds of iterator (filter, flat_map, skip_while/take_while, from_fn, owned), empty sum == variable-free zero; x+0, 0+x, x*1, 1*x == x by name; is_zero <=> value 0 and all derivatives 0. Non-trivial: a negative operand, divisor or float.".into()
+        "random (kind, two numbers with arbitrary derivative content and values of either sign incl. equal values, an alternative derivative content for the first, a float of either sign, a sequence of 0-5 numbers). Oracle: <,<=,>,>=,partial_cmp between numbers and with a float on either side == the float comparison of the values and unchanged when derivatives are replaced, also through the generic number container in all six operand positions (container/container, container/float container, container/float and the mirror images); a == b => Equal; 0-2 pairs from a table of special floats (signed zeros, NaN, infinities, neighbouring doubles, subnormals, MAX) compared in six operand forms against the float comparison; abs flips value and every derivative iff the value is negative; a % b, a % float, float % b == a - b*trunc(a/b) by name in value and derivatives (1e-12), the truncated quotient taken of the float quotient or of the exact one (the two readings differ by one when the float division rounds across a whole number); owned forms == reference forms; 0-2 remainder pairs built from decimals (dividend = m x divisor as written, nudged by 0-2 ulps: quotients a hair below or above a whole number); a sum of related terms (copies, scaled copies, products of earlier terms) == adding them one by one; sum == left fold from zero by name and identical through five kinds of iterator (filter, flat_map, skip_while/take_while, from_fn, owned), empty sum == variable-free zero; x+0, 0+x, x*1, 1*x == x by name; is_zero <=> value 0 and all derivatives 0. Non-trivial: a negative operand, divisor or float.".into()
     }
 
     fn floors(&self, tier: Tier) -> Vec<Floor> {
